@@ -83,10 +83,16 @@ impl<CharIter: Iterator<Item = char>> Lexer<CharIter> {
     }
 
     fn try_next(&mut self) -> Result<Option<TokenData>> {
-        match self.advance(1) {
+        // white space and comments are skipped in a loop: a long run of comment lines must not nest calls
+        loop {
+            match self.advance(1) {
+                Some(' ') | Some('\t') | Some('\n') | Some('\r') => self.atmosphere(),
+                Some(';') => self.comment(),
+                _ => break,
+            }
+        }
+        match self.current {
             Some(c) => match c {
-                ' ' | '\t' | '\n' | '\r' => self.atmosphere(),
-                ';' => self.comment(),
                 '(' => Ok(Some(TokenData::LeftParen)),
                 ')' => Ok(Some(TokenData::RightParen)),
                 '#' => match self.advance(1) {
@@ -178,7 +184,7 @@ impl<CharIter: Iterator<Item = char>> Lexer<CharIter> {
         }
     }
 
-    fn atmosphere(&mut self) -> Result<Option<TokenData>> {
+    fn atmosphere(&mut self) {
         while let Some(c) = self.peekable_char_stream.peek() {
             match c {
                 ' ' | '\t' | '\n' | '\r' => {
@@ -187,10 +193,9 @@ impl<CharIter: Iterator<Item = char>> Lexer<CharIter> {
                 _ => break,
             }
         }
-        self.try_next()
     }
 
-    fn comment(&mut self) -> Result<Option<TokenData>> {
+    fn comment(&mut self) {
         while let Some(c) = self.peekable_char_stream.peek() {
             match c {
                 '\n' | '\r' => break,
@@ -199,7 +204,6 @@ impl<CharIter: Iterator<Item = char>> Lexer<CharIter> {
                 }
             }
         }
-        self.try_next()
     }
 
     fn normal_identifier(&mut self) -> Result<Option<TokenData>> {
